@@ -48,6 +48,21 @@ fn main() {
                 Ok(Err(e)) => println!("outcome=err {e:#}"),
             }
         }
+        "addfile" => {
+            // SemanticState::add_file with the given base and file path, then build; prints the outcome
+            let base = arg(&args, "--base").expect("--base");
+            let path = arg(&args, "--path").expect("--path");
+            let r = std::panic::catch_unwind(|| {
+                let mut s = pyxis::semantic::SemanticState::new(8);
+                s.add_file(std::path::Path::new(&base), std::path::Path::new(&path))?;
+                s.build().map(|_| ())
+            });
+            match r {
+                Err(_) => println!("outcome=panic"),
+                Ok(Ok(())) => println!("outcome=ok"),
+                Ok(Err(e)) => println!("outcome=err {e:#}"),
+            }
+        }
         "render" => {
             // render the abstract inputs of an ndjson file to text (debugging aid)
             let inp = arg(&args, "--in").expect("--in");
